@@ -5,7 +5,8 @@ import S3V.Base.Bytes
 Small-step semantics of one write (`put_object`, `upload_part`, `complete_multipart_upload`) over an abstract
 disk state, with a fault after any step; and of `n` writers to one key under any interleaving.
 
-The steps mirror the code (current tree, i.e. after 3229285 — checksums are compared *before* `done()`):
+The steps mirror the code (current tree, i.e. after 3229285 — checksums are compared *before* `done()` — and
+b01fec8 — a put without metadata removes the previous object's metadata file):
 
 | step        | code                                                                                   |
 |-------------|----------------------------------------------------------------------------------------|
@@ -19,7 +20,8 @@ The steps mirror the code (current tree, i.e. after 3229285 — checksums are co
 | `check`     | the four checksum comparisons (`BadDigest`)                                            |
 | `mkdirs`    | `done()`, first await: `create_dir_all(dest.parent())` — fails when a parent is a plain file; `clean_tmp` is still `true` |
 | `rename`    | `done()`, second await: `fs::rename(tmp, dest)` — POSIX-atomic; fails when `dest` is a directory; only AFTER it succeeded `clean_tmp = false` |
-| `saveMeta`  | `save_metadata` (`fs::write`, not atomic, after the rename)                            |
+| `saveMeta`  | `save_metadata` (`fs::write`, not atomic, after the rename) — request with metadata        |
+| `dropMeta`  | request without metadata: `get_metadata_path` + `remove_file` of a metadata file left by the previous object (after the rename; fails if that path is a directory) |
 | `saveInfo`  | `save_internal_info` (`fs::write`, after the rename)                                   |
 
 An error return and a dropped future both run `Drop for FileWriter`: the temporary file is removed iff a
@@ -86,6 +88,7 @@ inductive Step where
   | mkdirs (fails : Bool)
   | rename (fails : Bool)
   | saveMeta (fails : Bool)
+  | dropMeta (fails : Bool)
   | saveInfo (fails : Bool)
   deriving DecidableEq, Repr
 
@@ -109,6 +112,7 @@ def exec (s : St) : Step → Except (Code × St) St
     if fails then .error (.internalError, s)
     else .ok { s with dest := some s.acc, tmp := false, owned := false }
   | .saveMeta fails => if fails then .error (.internalError, s) else .ok { s with mdata := .new }
+  | .dropMeta fails => if fails then .error (.internalError, s) else .ok { s with mdata := .absent }
   | .saveInfo fails => if fails then .error (.internalError, s) else .ok { s with info := .new }
 
 /-- `Drop for FileWriter` (runs on an error return and when the request future is dropped) -/
@@ -154,7 +158,7 @@ structure Cfg where
 
 def putObjectProg (c : Cfg) : List Step :=
   [.create, .adopt] ++ c.frames.map .frame ++ [.flush, .check c.checksumsEqual, .mkdirs c.mkdirsFails, .rename c.renameFails] ++
-    (if c.hasMeta then [.saveMeta c.metaFails] else []) ++ [.saveInfo c.infoFails]
+    (if c.hasMeta then [.saveMeta c.metaFails] else [.dropMeta c.metaFails]) ++ [.saveInfo c.infoFails]
 
 def uploadPartProg (c : Cfg) : List Step :=
   [.create, .adopt] ++ c.frames.map .frame ++ [.flush, .mkdirs c.mkdirsFails, .rename c.renameFails]
